@@ -257,8 +257,12 @@ class Ctx:
                 print(f"KNOWN-FINDING: property={self.prop} {k['what']} [{signature}]", flush=True)
                 self.known_hits.append(signature)
             return
-        if len(self.fails) < 20:
-            self.fails.append({"signature": signature, "what": what, "replay": replay})
+        for f in self.fails:
+            if f["signature"] == signature:
+                f["occurrences"] += 1
+                return
+        if len(self.fails) < 40:
+            self.fails.append({"signature": signature, "what": what, "replay": replay, "occurrences": 1})
         else:
             self.extra["fails_dropped"] = self.extra.get("fails_dropped", 0) + 1
 
